@@ -25,7 +25,7 @@ pub fn generate(r: &mut Rng, tier: Tier) -> Scenario {
         property: "C12".into(),
         variant: "t1-histories".into(),
         world,
-        personality: crate::reader::Personality::Strict,
+        personality: if r.chance(1, 4) { crate::reader::Personality::Lsp } else { crate::reader::Personality::Strict },
         reader_faults: vec![],
         entropy,
         history,
@@ -61,8 +61,7 @@ pub fn check(scn: &Scenario, stats: &mut Stats) -> Vec<Violation> {
     let feats = BTreeMap::new();
     let mut snaps: Vec<(u64, Snap)> = Vec::new();
     for (n, &e) in scn.entropy.iter().enumerate() {
-        let mut spec = LintSpec::new(&scn.world, e, Api::Coded);
-        spec.personality = scn.personality;
+        let mut spec = LintSpec::of(scn, e, Api::Coded);
         spec.want_snapshot = true;
         if n == 0 {
             spec.history = scn.history.clone();
